@@ -402,7 +402,8 @@ impl QosPolicies {
     //
     // See Ord implementation on Liveliness.
     if let (Some(off), Some(req)) = (self.liveliness, other.liveliness) {
-      if off < req {
+      // Both conditions must hold. A single (lexicographic) ordering cannot express this.
+      if off.kind_num() < req.kind_num() || off.duration() > req.duration() {
         return Some(QosPolicyId::Liveliness);
       }
     }
@@ -783,7 +784,7 @@ pub mod policy {
   }
 
   impl Liveliness {
-    fn kind_num(&self) -> i32 {
+    pub(crate) fn kind_num(&self) -> i32 {
       match self {
         Self::Automatic { .. } => 0,
         Self::ManualByParticipant { .. } => 1,
@@ -804,7 +805,7 @@ pub mod policy {
     fn cmp(&self, other: &Self) -> Ordering {
       // Manual liveliness is greater than automatic, but
       // duration compares in reverse
-      other
+      self
         .kind_num()
         .cmp(&other.kind_num())
         .then_with(|| self.duration().cmp(&other.duration()).reverse())
